@@ -1,5 +1,5 @@
 import G3D.Proofs.BodySoundAll
-import G3D.Proofs.Typed
+import G3D.Proofs.TypedHandlers
 
 /-! # result ⊆ a ∩ b as POINT SETS (C12, third clause, set form), all 49 cells
 
@@ -8,8 +8,7 @@ import G3D.Proofs.Typed
     vertices of a returned ConvexPolygon / ConvexPolyhedron (`ObjDen`) — lies in both operands. -/
 namespace G3D
 open V3
-open G3D.Props.C04 (resTyOf)
-open G3D.Extracted (ResTy)
+open G3D.Dispatch (ResTy)
 
 /-- closed under segments -/
 def SegConvex (D : V3 → Prop) : Prop := ∀ u v x, D u → D v → Between u v x → D x
@@ -195,12 +194,5 @@ theorem interRef_result_subset (a b : Obj) (ha : OpWF a) (hb : OpWF b) (o : Opti
     | polygon Q => exact sub (interPolygonPolyhedron_typed A Q o h) (by simp)
     | polyhedron B => exact sub (interPolyhedronPolyhedron_typed A B o h) (by simp)
 #print axioms interRef_result_subset
-
-/-- the same about `inter`, the dispatcher generated from the current source -/
-theorem inter_result_subset (a b : Obj) (ha : OpWF a) (hb : OpWF b) (o : Option Obj)
-    (h : inter a b = .ok o) : ∀ x, denOptB o x → OpDen a x ∧ OpDen b x := by
-  rw [Props.C04.inter_eq_ref] at h
-  exact interRef_result_subset a b ha hb o h
-#print axioms inter_result_subset
 
 end G3D
